@@ -79,6 +79,31 @@ def enumerate_cases():
     return cases
 
 
+def live_group_key(case):
+    """rows that resolve, in the live database, to the same register specification file with the same database entry of the
+    (sub-)feature share one register layout: key for the quick-tier choice of the row that gets the full vector set"""
+    from spsdk.utils.database import get_db
+    kind, feat, sub, fam, rev = case
+    try:
+        db = get_db(fam, rev)
+        fd = db.features.get(feat, {})
+        if kind in ("cmpa", "cfpa", "romcfg", "cmactable"):
+            ent, key = fd.get(sub[0], {}), [sub[0], "reg_spec"]
+        elif kind == "fcb":
+            ent, key = fd.get("mem_types", {}).get(sub[0], {}), ["mem_types", sub[0], "reg_spec"]
+        elif kind == "xmcd":
+            ent = [fd.get("header", {}), fd.get("mem_types", {}).get(sub[0], {}).get(sub[1], {})]
+            key = ["mem_types", sub[0], sub[1], "reg_spec"]
+        elif kind == "memcfg":
+            ent, key = fd.get("peripherals", {}).get(sub[0], {}), ["peripherals", sub[0], "reg_spec"]
+        else:
+            ent, key = fd, "reg_spec"
+        path = db.get_file_path(feat, key)
+        return json.dumps([kind, path, ent], sort_keys=True, default=str)
+    except Exception:  # noqa: BLE001
+        return case_id(case)
+
+
 def case_id(case):
     kind, feat, sub, fam, rev = case
     return "/".join([kind, fam, rev, *sub])
@@ -1369,6 +1394,8 @@ def run(ck):
 
     from spsdk.utils.database import DatabaseManager
     ck.max_fail_per_stream = 40
+    ck.spec_ops = set()   # drv_c12 has no Spec-only op: every answer depends on Model/ConfigArea or the generated tables.  All oracle
+    #                       expectations and finding predicates of this file are computed from the input and the real code alone.
     gen_names = ["RegLayouts", "RegDetails", "PfrRules"]
     ck.lean_obligations(generated=gen_names)
     drv = ck.driver()
@@ -1392,11 +1419,11 @@ def run(ck):
     # quick tier: the full vector set runs on one (seed-chosen) row per DISTINCT generated layout; the other rows that resolve to the
     # same layout (e.g. 57 FCB rows share 4 layouts, 281 memcfg rows 8) get the template and one random vector.  Thorough: everything.
     light = set()
-    rows_meta = (ck.generated_meta.get("RegLayouts") or {}).get("rows", {})
-    if ck.quick and rows_meta:
+    if ck.quick:
+        # (the grouping is computed from the LIVE database - never from generated parts: which oracle runs must not depend on the model)
         groups = {}
         for c in cases:
-            groups.setdefault(rows_meta.get(case_id(c), case_id(c)), []).append(case_id(c))
+            groups.setdefault(live_group_key(c), []).append(case_id(c))
         rr = random.Random(f"C12/repr/{ck.seed}")
         for _k, members in sorted(groups.items(), key=lambda kv: str(kv[0])):
             keep = rr.choice(sorted(members))
@@ -1489,9 +1516,12 @@ KIND_NO = {"cmpa": 0, "cfpa": 1, "romcfg": 2, "cmactable": 3, "bca": 4, "fcf": 5
 def _correspondence(ck, drv, cases, recs):
     """generated table vs live objects (infrastructure check) and Lean model vs real code (correspondence)."""
     meta = ck.generated_meta.get("RegLayouts")
-    if not meta:
-        raise Infra("generated meta for RegLayouts missing")
-    rows, tz_rows, layouts = meta["rows"], meta["tz_rows"], meta["layouts"]
+    if not meta or "rows" not in meta or "layouts" not in meta:
+        ck.broken.append("generated register-layout table is missing or unreadable (the static replica of the database/loader could not be built)")
+        return
+    for pr in (meta.get("problems") or [])[:5]:
+        ck.broken.append("generator could not resolve part of the database (static replica of the loader): " + str(pr)[:300])
+    rows, tz_rows, layouts = meta["rows"], meta.get("tz_rows", {}), meta["layouts"]
     live_ids = {r.cid for r in recs}
     gen_ids = set(rows) | set(tz_rows)
     only = os.environ.get("VERIF_C12_ONLY")
@@ -1499,9 +1529,12 @@ def _correspondence(ck, drv, cases, recs):
         gen_ids = {g for g in gen_ids if any(o in g for o in only.split(","))}
         rows = {k: v for k, v in rows.items() if k in gen_ids}
     if live_ids != gen_ids:
-        raise Infra("the statically generated list of (area, family, revision, sub-feature) rows differs from the live database enumeration: "
-                    f"only live {sorted(live_ids - gen_ids)[:5]} only generated {sorted(gen_ids - live_ids)[:5]}")
+        # the generated model part no longer describes the code (restructured database / loader): a broken tie, decided by the
+        # failing-input search of the sweep - not an infrastructure error
+        ck.broken.append("the statically generated list of (area, family, revision, sub-feature) rows differs from the live database enumeration: "
+                         f"only live {sorted(live_ids - gen_ids)[:5]} only generated {sorted(gen_ids - live_ids)[:5]}")
     by_id = {r.cid: r for r in recs}
+    rows = {k: v for k, v in rows.items() if k in by_id and isinstance(v, int) and 0 <= v < len(layouts)}
     mism = []
     for cid, idx in rows.items():
         r = by_id[cid]
@@ -1511,15 +1544,17 @@ def _correspondence(ck, drv, cases, recs):
             mism.append((cid, layouts[idx]["file"], f"register #{k}: live {a[k] if k < len(a) else None} generated {b[k] if k < len(b) else None}; "
                          f"{len(a)} vs {len(b)} registers"))
     ck.extra["layout_table"] = {"distinct_layouts": len(layouts), "rows": len(rows), "tz_rows": len(tz_rows),
-                                "registers": meta["counts"]["registers"], "bitfields": meta["counts"]["bitfields"],
+                                "registers": (meta.get("counts") or {}).get("registers"), "bitfields": (meta.get("counts") or {}).get("bitfields"),
                                 "rows_compared_with_live_objects": sum(1 for cid in rows if by_id[cid].layout is not None)}
-    if mism:
-        raise Infra("generated register layout differs from the live Registers object (generator replica out of date?): " + json.dumps(mism[:3]))
+    for m_ in mism[:5]:
+        ck.broken.append("generated register layout differs from the live Registers object (the generated table no longer describes the code): " + json.dumps(m_)[:400])
+    mism_ids = {m_[0] for m_ in mism}
     dmeta = (ck.generated_meta.get("RegDetails") or {}).get("details")
-    if dmeta is None:
-        raise Infra("generated meta for RegDetails missing")
+    if dmeta is None or len(dmeta) != len(layouts):
+        ck.broken.append("generated register-details table is missing or not aligned with the layout table")
+        dmeta = None
     dm = []
-    for cid, idx in rows.items():
+    for cid, idx in (rows.items() if dmeta is not None else ()):
         r = by_id[cid]
         if r.details is None:
             continue
@@ -1532,10 +1567,13 @@ def _correspondence(ck, drv, cases, recs):
                 j = next((i for i, (x, y) in enumerate(zip(g[5], w[5])) if x != y), 0)
                 g, w = (g[1], g[5][j] if j < len(g[5]) else None), (w[1], w[5][j] if j < len(w[5]) else None)
             dm.append((cid, dmeta[idx]["file"], f"register #{k}: live {json.dumps(g)[:300]} generated {json.dumps(w)[:300]}"))
-    ck.extra["layout_table"]["rows_details_compared_with_live_objects"] = sum(1 for cid in rows if by_id[cid].details is not None)
-    ck.extra["layout_table"]["enum_values"] = ck.generated_meta["RegDetails"]["counts"]["enums"]
-    if dm:
-        raise Infra("generated register details (initial values, names, access, enums) differ from the live Registers object: " + json.dumps(dm[:3]))
+    ck.extra["layout_table"]["rows_details_compared_with_live_objects"] = sum(1 for cid in rows if by_id[cid].details is not None) if dmeta is not None else 0
+    ck.extra["layout_table"]["enum_values"] = ((ck.generated_meta.get("RegDetails") or {}).get("counts") or {}).get("enums")
+    for d_ in dm[:5]:
+        ck.broken.append("generated register details (initial values, names, access, enums) differ from the live Registers object: " + json.dumps(d_)[:400])
+    mism_ids |= {d_[0] for d_ in dm}
+    if dmeta is None:
+        dmeta = [{"names": [], "regs": [], "computed": [], "aux": [], "file": l.get("file", "?")} for l in layouts]
     if drv is None:
         return
     sm = ck.stream("model_vs_code", "Lean model (drv_c12) against the real code on every vector of the sweep: exported bytes, values after parse, "
@@ -1543,9 +1581,8 @@ def _correspondence(ck, drv, cases, recs):
                    "meta data; non-trivial = distinct request")
     # ---- Lean table == meta (ties the .lean file to what was compared with the live objects)
     lines, expect, inputs = [], [], []
-    nl, ntz = drv.ask("count").split()
     sm.note(("count",), cls="table")
-    sm.compare(("count",), f"{len(layouts)} {len(meta['tz_files'])}", f"{nl} {ntz}", "number of generated layouts")
+    sm.compare(("count",), f"{len(layouts)} {len(meta.get('tz_files', {}))}", " ".join(str(drv.ask("count")).split()), "number of generated layouts")
     for i, l in enumerate(layouts):
         comp = ",".join(f"{a}:{b}" for a, b in l["computed"]) or "-"
         want = (f"{l['file']} {KIND_NO[l['kind']]} {l['size']} {l['fill']} {l['doc']} {1 if l['binary'] else 0} {comp} {l['seal'][0]} {l['seal'][1]} "
@@ -1568,8 +1605,16 @@ def _correspondence(ck, drv, cases, recs):
         cid = r.cid
         idx = rows.get(cid)
         cur = None
+        off_table = idx is None or cid in mism_ids   # this row's generated entry does not describe the live object (recorded as broken above)
         for it in r.model:
             inp = (cid, it["op"], *it["inp"][1:])
+            if off_table:
+                if it["op"] in ("cfg", "enumval", "ow", "fcbparse", "bcaparse", "fcfparse", "seal"):
+                    continue   # these need the generated entry of the row
+                if it["op"] in ("export", "parse") and it.get("layout") is None:
+                    if r.layout is None:
+                        continue
+                    it = dict(it, layout=r.layout, size=it.get("size", 0), fill=it.get("fill", 0))
             if it["op"] == "tz":
                 lines.append(f"tzexport {_csv(it['vals'])}")
                 expect.append("ok:" + it["bytes"] if it["bytes"] else "ok:")
@@ -1620,12 +1665,15 @@ def _correspondence(ck, drv, cases, recs):
                     inputs.append((cid, "select"))
                     cur = ("sel", idx)
                 ents = []
-                for reg_name, k, v in it["cfg"]:
-                    if k == "V":
-                        ents.append(f"{names.index(reg_name)}=V{v}")
-                    else:
-                        ents.append(f"{names.index(reg_name)}=" + "{" + ",".join(
-                            f"{names.index(fn)}:" + (f"n{names.index(x)}" if t == "n" else f"v{x}") for fn, t, x in v) + "}")
+                try:
+                    for reg_name, k, v in it["cfg"]:
+                        if k == "V":
+                            ents.append(f"{names.index(reg_name)}=V{v}")
+                        else:
+                            ents.append(f"{names.index(reg_name)}=" + "{" + ",".join(
+                                f"{names.index(fn)}:" + (f"n{names.index(x)}" if t == "n" else f"v{x}") for fn, t, x in v) + "}")
+                except ValueError:   # a name the generated table does not know: the table mismatch is already recorded
+                    ents = ["<name missing in the generated table>"]
                 lines.append(f"getcfg {_csv(it['vals'])}")
                 expect.append("ok:" + ";".join(ents))
                 inputs.append(inp + ("get_config",))
@@ -1680,7 +1728,12 @@ def _correspondence(ck, drv, cases, recs):
     ans = drv.batch(lines)
     for ln, want, got, inp in zip(lines, expect, ans, inputs):
         if inp == ("wfall",):
-            bad = [layouts[int(i)]["file"] for i in got.split(",")] if got not in ("-", "") else []
+            try:
+                bad = [layouts[int(i)]["file"] for i in got.split(",")] if got not in ("-", "") else []
+            except (ValueError, IndexError, KeyError, AttributeError):
+                sm.note(inp, cls="wfall")
+                sm.compare(inp, "<comma separated layout indices>", got, "the native layout checker gave an unreadable answer")
+                continue
             known_ill = {"devices/kw45b41z8/ifr_cmactable_a0.json", "devices/kw47b42zb7/ifr_cmactable_a0.json", "devices/kw47b42zb7/ifr_romcfg_a0.json",
                          "devices/mcxn946/pfr_cmpa_a0.json", "devices/mcxn946/pfr_cfpa_a0.json"}
             for f in bad:
@@ -1693,9 +1746,14 @@ def _correspondence(ck, drv, cases, recs):
             continue
         if inp == ("dcheck",):
             bad = {}
-            for ent in ([] if got in ("-", "") else got.split(",")):
-                i, cl = ent.split(":")
-                bad[layouts[int(i)]["file"]] = cl.split("+")
+            try:
+                for ent in ([] if got in ("-", "") else got.split(",")):
+                    i, cl = ent.split(":")
+                    bad[layouts[int(i)]["file"]] = cl.split("+")
+            except (ValueError, IndexError, KeyError, AttributeError):
+                sm.note(inp, cls="dcheck")
+                sm.compare(inp, "<index:clause+clause,...>", got, "the native details checker gave an unreadable answer")
+                continue
             expected_bad = {"devices/kw45b41z8/ifr_cmactable_a0.json", "devices/kw47b42zb7/ifr_cmactable_a0.json", "common/xmcd/flexspi_ram_simplified.json",
                             "common/xmcd/xspi_ram_simplified.json", "devices/mimx9131/fuses.json", "devices/mimx9596/fuses.json"}
             for f, cl in bad.items():
@@ -1705,10 +1763,13 @@ def _correspondence(ck, drv, cases, recs):
                 drv.ask(f"sel {i}")
                 where = drv.ask("dwhere")
                 detail = ""
-                if where not in ("-", ""):
-                    ri, fi, what = where.split(":")
-                    regd = dmeta[i]["regs"][int(ri)]
-                    detail = f" register '{regd[1]}'" + (f" bit-field '{regd[5][int(fi)][4]}'" if fi != "-" else "") + f" ({what})"
+                try:
+                    if where not in ("-", ""):
+                        ri, fi, what = where.split(":")
+                        regd = dmeta[i]["regs"][int(ri)]
+                        detail = f" register '{regd[1]}'" + (f" bit-field '{regd[5][int(fi)][4]}'" if fi != "-" else "") + f" ({what})"
+                except (ValueError, IndexError, KeyError, TypeError):
+                    detail = ""
                 users = sorted(c for c, ix in rows.items() if ix == i)[:3]
                 ck.broken.append(f"generated database table fact fails [{'+'.join(cl)}]: {f}{detail}; used by {', '.join(users)}")
             ck.extra["details_checker"] = {"failing": bad, "how": "the clauses of gen_details_ok / gen_fcb_table / gen_bca_fcf_table / gen_memcfg_table evaluated "
